@@ -39,6 +39,10 @@ fn esc(s: &str) -> String {
     o
 }
 
+fn did_id(tcx: TyCtxt<'_>, did: DefId) -> String {
+    format!("{}{}", tcx.crate_name(did.krate), tcx.def_path(did).to_string_no_crate_verbose())
+}
+
 struct Loc {
     file: String,
     line: usize,
@@ -93,6 +97,18 @@ struct BodyFacts<'tcx> {
 
 impl<'tcx> BodyFacts<'tcx> {
     fn fn_ref(&mut self, def_id: DefId, args: ty::GenericArgsRef<'tcx>, span: Span, kind: &str, recv_ty: Option<String>) {
+        self.fn_ref2(def_id, args, span, kind, recv_ty, None)
+    }
+
+    fn fn_ref2(
+        &mut self,
+        def_id: DefId,
+        args: ty::GenericArgsRef<'tcx>,
+        span: Span,
+        kind: &str,
+        recv_ty: Option<String>,
+        fn_span: Option<Span>,
+    ) {
         let tcx = self.tcx;
         let dk = tcx.def_kind(def_id);
         let mut resolved_id = def_id;
@@ -129,11 +145,41 @@ impl<'tcx> BodyFacts<'tcx> {
         } else {
             None
         };
+        let mut adts: Vec<String> = vec![];
+        for ga in resolved_args.iter() {
+            if let Some(t) = ga.as_type() {
+                for inner in t.walk() {
+                    if let Some(it) = inner.as_type() {
+                        if let ty::Adt(ad, _) = it.kind() {
+                            let cn = tcx.crate_name(ad.did().krate).to_string();
+                            if cn == "prqlc" || cn == "prqlc_parser" {
+                                let id = did_id(tcx, ad.did());
+                                if !adts.contains(&id) {
+                                    adts.push(id);
+                                }
+                            }
+                        }
+                    }
+                }
+            }
+        }
+        let adts_json = format!("[{}]", adts.iter().map(|a| esc(a)).collect::<Vec<_>>().join(","));
         let mut s = String::new();
         let _ = write!(
             s,
-            "{{\"kind\":{},\"def\":{},\"full\":{},\"orig\":{},\"crate\":{},\"resolved\":{},\"virtual\":{},\"trait\":{},\"self\":{},\"recv\":{},{}}}",
+            "{{\"ml\":{},\"arg_adts\":{},\"kind\":{},\"id\":{},\"orig_id\":{},\"def\":{},\"full\":{},\"orig\":{},\"crate\":{},\"resolved\":{},\"virtual\":{},\"trait\":{},\"self\":{},\"recv\":{},{}}}",
+            match fn_span {
+                Some(fs) if !fs.from_expansion() => {
+                    // line of the method name / callee path: the end of the callee part of the call
+                    let sm = tcx.sess.source_map();
+                    sm.lookup_char_pos(fs.lo()).line as i64
+                }
+                _ => -1,
+            },
+            adts_json,
             esc(kind),
+            esc(&did_id(tcx, resolved_id)),
+            esc(&did_id(tcx, def_id)),
             esc(&def),
             esc(&full),
             esc(&orig),
@@ -161,8 +207,7 @@ impl<'tcx> Visitor<'tcx> for BodyFacts<'tcx> {
                         if let Some(c) = func.constant() {
                             self.call_spans.push(c.span);
                         }
-                        let _ = fn_span;
-                        self.fn_ref(*did, ga, term.source_info.span, "call", recv);
+                        self.fn_ref2(*did, ga, term.source_info.span, "call", recv, Some(*fn_span));
                     }
                     _ => {
                         let l = loc(self.tcx, term.source_info.span);
@@ -212,7 +257,9 @@ impl<'tcx> Visitor<'tcx> for BodyFacts<'tcx> {
                 let span = body.source_info(location).span;
                 let l = loc(self.tcx, span);
                 self.refs.push(format!(
-                    "{{\"kind\":\"closure\",\"def\":{},\"full\":{},\"orig\":{},\"crate\":{},\"resolved\":true,\"virtual\":false,\"trait\":null,\"self\":null,\"recv\":null,{}}}",
+                    "{{\"kind\":\"closure\",\"id\":{},\"orig_id\":{},\"def\":{},\"full\":{},\"orig\":{},\"crate\":{},\"resolved\":true,\"virtual\":false,\"trait\":null,\"self\":null,\"recv\":null,{}}}",
+                    esc(&did_id(self.tcx, *did)),
+                    esc(&did_id(self.tcx, *did)),
                     esc(&self.tcx.def_path_str(*did)),
                     esc(&self.tcx.def_path_str(*did)),
                     esc(&self.tcx.def_path_str(*did)),
@@ -235,7 +282,12 @@ impl<'tcx> Visitor<'tcx> for BodyFacts<'tcx> {
         }
         if let Some(did) = c.check_static_ptr(self.tcx) {
             let l = loc(self.tcx, c.span);
-            self.statics.push(format!("{{\"def\":{},{}}}", esc(&self.tcx.def_path_str(did)), loc_json(&l)));
+            self.statics.push(format!(
+                "{{\"id\":{},\"def\":{},{}}}",
+                esc(&did_id(self.tcx, did)),
+                esc(&self.tcx.def_path_str(did)),
+                loc_json(&l)
+            ));
         }
     }
 }
@@ -326,6 +378,16 @@ impl rustc_driver::Callbacks for Cb {
             } else {
                 String::new()
             };
+            let impl_self_id: Option<String> = match dk {
+                DefKind::AssocFn => tcx.trait_impl_of_assoc(did).and_then(|i| {
+                    let tr = tcx.impl_trait_ref(i).skip_binder();
+                    match tr.self_ty().kind() {
+                        ty::Adt(ad, _) => Some(did_id(tcx, ad.did())),
+                        _ => None,
+                    }
+                }),
+                _ => None,
+            };
             let (impl_of_trait, trait_item) = match dk {
                 DefKind::AssocFn => {
                     let ti = tcx.trait_item_of(did).map(|t| tcx.def_path_str(t));
@@ -343,7 +405,11 @@ impl rustc_driver::Callbacks for Cb {
             first = false;
             let _ = write!(
                 out,
-                "{{\"path\":{},\"kind\":{},\"parent\":{},\"vis\":{},\"impl_self\":{},\"trait_item\":{},\"sl\":{},\"el\":{},{},\"refs\":[{}],\"asserts\":[{}],\"aggs\":[{}],\"statics\":[{}]}}",
+                "{{\"impl_self_id\":{},\"id\":{},\"parent_id\":{},\"trait_item_id\":{},\"path\":{},\"kind\":{},\"parent\":{},\"vis\":{},\"impl_self\":{},\"trait_item\":{},\"sl\":{},\"el\":{},{},\"refs\":[{}],\"asserts\":[{}],\"aggs\":[{}],\"statics\":[{}]}}",
+                match &impl_self_id { Some(p) => esc(p), None => "null".into() },
+                esc(&did_id(tcx, did)),
+                match dk { DefKind::Closure => esc(&did_id(tcx, tcx.typeck_root_def_id(did))), _ => "null".into() },
+                match dk { DefKind::AssocFn => match tcx.trait_item_of(did) { Some(t) => esc(&did_id(tcx, t)), None => "null".into() }, _ => "null".into() },
                 esc(&tcx.def_path_str(did)),
                 esc(kind),
                 match &parent { Some(p) => esc(p), None => "null".into() },
@@ -373,13 +439,80 @@ impl rustc_driver::Callbacks for Cb {
                 first = false;
                 let _ = write!(
                     out,
-                    "{{\"path\":{},\"ty\":{},\"freeze\":{},\"mutable\":{},{}}}",
+                    "{{\"id\":{},\"path\":{},\"ty\":{},\"freeze\":{},\"mutable\":{},{}}}",
+                    esc(&did_id(tcx, did)),
                     esc(&tcx.def_path_str(did)),
                     esc(&format!("{}", ty)),
                     freeze,
                     tcx.is_mutable_static(did),
                     loc_json(&l)
                 );
+            }
+        }
+        out.push_str("],\"type_reach\":[");
+        // fields reachable from the serialised IR roots, with their instantiated types
+        let roots = std::env::var("PRQL_FACTS_ROOTS").unwrap_or_else(|_| "RelationalQuery,ModuleDef".into());
+        let mut first = true;
+        for ldid in tcx.hir_crate_items(()).definitions() {
+            let did = ldid.to_def_id();
+            if !matches!(tcx.def_kind(did), DefKind::Struct | DefKind::Enum) {
+                continue;
+            }
+            let name = tcx.item_name(did).to_string();
+            if !roots.split(',').any(|r| r == name) {
+                continue;
+            }
+            let root_ty = tcx.type_of(did).instantiate_identity().skip_norm_wip();
+            let mut seen: Vec<ty::Ty<'tcx>> = vec![];
+            let mut work: Vec<ty::Ty<'tcx>> = vec![root_ty];
+            while let Some(t) = work.pop() {
+                if seen.contains(&t) {
+                    continue;
+                }
+                seen.push(t);
+                match t.kind() {
+                    ty::Adt(ad, args) => {
+                        let cn = tcx.crate_name(ad.did().krate).to_string();
+                        if cn == "prqlc" || cn == "prqlc_parser" {
+                            for v in ad.variants().iter() {
+                                for f in v.fields.iter() {
+                                    let fty = f.ty(tcx, args);
+                                    let fs = format!("{}", fty);
+                                    if !first {
+                                        out.push(',');
+                                    }
+                                    first = false;
+                                    let _ = write!(
+                                        out,
+                                        "{{\"root\":{},\"owner\":{},\"owner_id\":{},\"variant\":{},\"field\":{},\"ty\":{}}}",
+                                        esc(&name),
+                                        esc(&tcx.def_path_str(ad.did())),
+                                        esc(&did_id(tcx, ad.did())),
+                                        esc(&v.name.to_string()),
+                                        esc(&f.name.to_string()),
+                                        esc(&fs)
+                                    );
+                                    work.push(fty);
+                                }
+                            }
+                        } else {
+                            // std / external containers: descend into their type arguments
+                            for ga in args.iter() {
+                                if let Some(it) = ga.as_type() {
+                                    work.push(it);
+                                }
+                            }
+                        }
+                    }
+                    ty::Tuple(ts) => {
+                        for it in ts.iter() {
+                            work.push(it);
+                        }
+                    }
+                    ty::Array(it, _) | ty::Slice(it) => work.push(*it),
+                    ty::Ref(_, it, _) => work.push(*it),
+                    _ => {}
+                }
             }
         }
         out.push_str("]}");
